@@ -106,6 +106,7 @@ class Analysis:
         for it in range(4):
             before = (dict(self.ret), dict(self.fields))
             self.events = []
+            self.wrap_sites = 0
             self.trig_by_func = {}
             self.attr_by_func = {}
             self.trig_sites = self.trig_rad = self.angle_ctor = self.attr_uses = self.attr_guarded = 0
@@ -632,9 +633,25 @@ class FuncAnalysis:
     def angle_wrap(self, node, lv):
         """R-ANGLE-WRAP: `E - 360*round(E/360)` (reduction to (-180, 180]) on an Angle-typed E is
         the identity, because Angle arithmetic already wraps modulo 360"""
-        if not isinstance(node.op, ast.Sub) or not is_angle(lv):
+        if not isinstance(node.op, ast.Sub):
             return
         r = node.right
+        # R-WRAP-SELF: the idiom  E - 360*round(E'/360)  reduces E only if E' is E itself
+        if isinstance(r, ast.BinOp) and isinstance(r.op, ast.Mult):
+            ps = [r.left, r.right]
+            cs = [p_ for p_ in ps if isinstance(p_, ast.Constant) and p_.value in (360, 360.0)]
+            cl = [p_ for p_ in ps if isinstance(p_, ast.Call) and isinstance(p_.func, ast.Name) and p_.func.id == "round" and p_.args]
+            if len(cs) == 1 and len(cl) == 1:
+                a = cl[0].args[0]
+                if isinstance(a, ast.BinOp) and isinstance(a.op, ast.Div) and isinstance(a.right, ast.Constant) and a.right.value in (360, 360.0):
+                    self.an.wrap_sites = getattr(self.an, "wrap_sites", 0) + 1
+                    if norm_text(a.left) != norm_text(node.left):
+                        self.event("wrapself", node,
+                                   "`%s`: the number of turns is computed from `%s`, not from the value being reduced (`%s`), so that value is not "
+                                   "brought into (-180, 180]" % (norm_text(node)[:70], norm_text(a.left)[:30], norm_text(node.left)[:30]),
+                                   "wrapself:%s/%s" % (norm_text(node.left)[:30], norm_text(a.left)[:30]))
+        if not is_angle(lv):
+            return
         if not (isinstance(r, ast.BinOp) and isinstance(r.op, ast.Mult)):
             return
         parts = [r.left, r.right]
